@@ -39,7 +39,7 @@ static long fn_cases(const c18_fn_t *f) {
 		n = 0;
 		for (int i = 0; i < f->nargs; i++) { long others = 1; for (int k = 0; k < f->nargs; k++) if (k != i) others *= f->nbounds[k] > 0 ? (f->nbounds[k] > 2 ? 2 : f->nbounds[k]) : 1; n += 256 * others; }
 	}
-	if (f->payload_max >= 0) n += 2L * (f->payload_max + 2);       /* payload lengths 0..max+1, two fill bytes, with boundary args */
+	if (f->payload_max >= 0) n += 2L * 256;                        /* payload lengths 0..255 (every value the uint8 size parameter can take), two fill bytes, with boundary args */
 	return n;
 }
 static void fn_case(const c18_fn_t *f, long idx, c18_case_t *c) {
